@@ -49,6 +49,10 @@ type Env struct {
 type Usage struct {
 	specs map[string]bool
 	strs  map[int]bool
+	// conservative extensions introduced while compiling (fresh symbols
+	// and their defining axioms), asserted with every obligation of the VC
+	decls []string
+	facts []*Term
 }
 
 func NewUsage() *Usage { return &Usage{specs: map[string]bool{}, strs: map[int]bool{}} }
@@ -767,6 +771,45 @@ func (env *Env) call(x ECall) TV {
 			return TV{T: SlLen(v.T), Ty: intT}
 		}
 		cfail("%s on sort %s", x.Fn, v.T.Sort)
+	case "perm":
+		// perm(a, b): slice a is a rearrangement of slice b.  Compiled to a
+		// fresh proposition P together with "P implies a bijection exists"
+		// (fresh index functions, inverse to each other so that E-matching
+		// terminates).  Nothing implies P: it is usable in assumed
+		// contracts only, and unprovable as a goal.
+		if len(x.Args) != 2 || env.used == nil {
+			cfail("perm(a, b)")
+		}
+		c := env.child()
+		kn, jn := freshBinder("pk"), freshBinder("pj")
+		k, j := Sym(kn, SInt), Sym(jn, SInt)
+		c.vars["$pk"] = TV{T: k, Ty: intT}
+		c.vars["$pj"] = TV{T: j, Ty: intT}
+		ak := c.comp(EIndex{x.Args[0], EIdent{"$pk"}})
+		var bjE Expr = EIndex{x.Args[1], EIdent{"$pj"}}
+		if oc, ok := x.Args[1].(ECall); ok && oc.Fn == "old" && len(oc.Args) == 1 {
+			bjE = ECall{"old", []Expr{EIndex{oc.Args[0], EIdent{"$pj"}}}} // the elements are read in the old heap too
+		}
+		bj := c.comp(bjE)
+		la := c.comp(ECall{"len", []Expr{x.Args[0]}})
+		lb := c.comp(ECall{"len", []Expr{x.Args[1]}})
+		if ak.T == nil || bj.T == nil || ak.T.Sort != bj.T.Sort {
+			cfail("perm: element types must be scalar and equal")
+		}
+		binderCounter++
+		fn, gn, pn := fmt.Sprintf("perm!f!%d", binderCounter), fmt.Sprintf("perm!g!%d", binderCounter), fmt.Sprintf("perm!p!%d", binderCounter)
+		env.used.decls = append(env.used.decls, "(declare-fun "+fn+" (Int) Int)", "(declare-fun "+gn+" (Int) Int)", "(declare-const "+pn+" Bool)")
+		P := Sym(pn, SBool)
+		aAt := func(t *Term) *Term { return Subst(ak.T, map[string]*Term{kn: t}) }
+		bAt := func(t *Term) *Term { return Subst(bj.T, map[string]*Term{jn: t}) }
+		fk, gj := App(fn, SInt, k), App(gn, SInt, j)
+		env.used.facts = append(env.used.facts,
+			Implies(P, Eq(la.T, lb.T)),
+			Forall([]Binder{{kn, SInt}}, Implies(And(P, Le(IntLit(0), k), Lt(k, la.T)),
+				And(Le(IntLit(0), fk), Lt(fk, la.T), Eq(aAt(k), bAt(fk)), Eq(App(gn, SInt, fk), k))), []*Term{aAt(k)}),
+			Forall([]Binder{{jn, SInt}}, Implies(And(P, Le(IntLit(0), j), Lt(j, la.T)),
+				And(Le(IntLit(0), gj), Lt(gj, la.T), Eq(aAt(gj), bAt(j)), Eq(App(fn, SInt, gj), j))), []*Term{bAt(j)}))
+		return TV{T: P, Ty: boolT}
 	case "b2i":
 		v := env.needBool(env.comp(x.Args[0]))
 		return TV{T: Ite(v.T, IntLit(1), IntLit(0)), Ty: intT}
